@@ -137,6 +137,8 @@ Eval(P, vf, tf, t, cv) ==
             THEN LET c == File(P, x.f).consts[x.i] IN Eval(P, x.f, x.f, c.type, c.val)   \* the constant's own value
             ELSE IF x.k = "member" /\ r.k = "enum"
             THEN [a |-> "i32:" \o ToString(MemberNum(File(P, x.f).enums[x.i].members, x.m))]
+            ELSE IF x.k = "member" /\ r.k \in Ints       \* an enum member written where an integer is expected: its number
+            THEN [a |-> r.k \o ":" \o ToString(MemberNum(File(P, x.f).enums[x.i].members, x.m))]
             ELSE UNDEF
   ELSE IF r.k \in {"list", "set"}
        THEN IF Has(cv, "l") THEN [l |-> [i \in 1..Len(cv.l) |-> Eval(P, vf, r.f, r.t.v, cv.l[i])]] ELSE UNDEF
@@ -210,7 +212,16 @@ Obs(P, f, s, D, obj) ==
    \* the statement speaks about getters of optional fields with a declared default
    getdem |-> [n \in Opt |-> FieldOf(sd, n).req = "optional" /\ ~NoDef(FieldOf(sd, n))]]
 
-\* run a trace of steps [op |-> "new"|"zero"|"init"|"set"|"obs", (f, v)] ; the result is the sequence of observations
+\* "mutate in place": the value held by a field of THIS object is changed below the field (an element of a list/set is
+\* overwritten, the value of a map entry is replaced, a field of a nested struct is assigned).  Objects are values here:
+\* the defaults of distinct objects, and the default a getter answers with, are independent of each other, so nothing
+\* but this object changes.
+MutVal(cur, st) ==
+  CASE st.k = "idx" -> [l |-> [cur.l EXCEPT ![1] = st.v]]
+    [] st.k = "key" -> [m |-> [i \in 1..Len(cur.m) |-> IF cur.m[i][1] = st.key THEN <<st.key, st.v>> ELSE cur.m[i]]]
+    [] st.k = "fld" -> [s |-> [cur.s EXCEPT ![st.fld] = st.v]]
+
+\* run a trace of steps [op |-> "new"|"zero"|"init"|"set"|"mut"|"obs", (f, v, k, key, fld)] ; the result is the sequence of observations
 RECURSIVE RunD(_, _, _, _, _, _, _)
 RunD(P, f, s, D, obj, tr, i) ==
   IF i > Len(tr) THEN <<>>
@@ -219,6 +230,7 @@ RunD(P, f, s, D, obj, tr, i) ==
          [] st.op = "zero" -> RunD(P, f, s, D, ZeroObj(P, f, s), tr, i + 1)
          [] st.op = "init" -> RunD(P, f, s, D, InitDefault(P, f, s, D, obj), tr, i + 1)
          [] st.op = "set"  -> RunD(P, f, s, D, SetField(obj, st.f, st.v), tr, i + 1)
+         [] st.op = "mut"  -> RunD(P, f, s, D, SetField(obj, st.f, MutVal(obj.s[st.f], st)), tr, i + 1)
          [] st.op = "obs"  -> <<Obs(P, f, s, D, obj)>> \o RunD(P, f, s, D, obj, tr, i + 1)
 Run(P, f, s, obj, tr, i) == RunD(P, f, s, Defaults(P, f, s), obj, tr, i)
 
